@@ -147,6 +147,7 @@ class TransitWorld:
         CTX.world = self
         CTX.client = "transit"
         self.net = Net()
+        self.net.linger_reads = bool(cfg.get("linger_reads"))
         self.rs = SimReactor(self.net, S_HOST)
         self.rr = SimReactor(self.net, R_HOST)
         self.rx = SimReactor(self.net, X_HOST)
@@ -223,7 +224,8 @@ class TransitWorld:
         for link in self.net.links:
             for side in (0, 1):
                 end = link.ends[side]
-                if not end.transport.closed and not end.transport.disconnecting and link.pending(side) > 0 and not end.transport.reading_paused:
+                if not end.transport.closed and (not end.transport.disconnecting or getattr(self.net, "linger_reads", False)) \
+                        and link.pending(side) > 0 and not end.transport.reading_paused:
                     for n in self._chunks(link, side):
                         evs.append(("deliver", link.idx, side, n))
         for c in self.net.attempts:
